@@ -51,6 +51,7 @@ def variants_for(pid, i, model, tier):
     vs = [base]
     if pid == "C20":
         vs.append(dict(base, base_ms=10 ** 9, tag="shift"))
+        vs.append(dict(base, base_off_ms=-3000, tag="origin 3 s before the real clock"))
         vs.append(dict(base, thread=True, decoys=3, tag="thread+decoys"))
         if tier == "thorough":
             vs.append(dict(base, base_ms=123456789, decoys=5, thread=True, tag="all"))
@@ -74,7 +75,7 @@ def b1_model(pid, tier, seed, model, wd):
         words += gen_cover_words(l, 2, rng, per_state=12)
     if pid == "C20" and tier == "quick":
         # three executions per script: keep the volume comparable
-        words = words[::3]
+        words = words[::4]
     scripts = []
     meta = {}
     for i, w in enumerate(words):
